@@ -265,6 +265,31 @@ def run(ctx):
             vit_lits.append("(%s, %s, %s, %s, %s)" % (c_nat(K), c_list([c_list([c_float(x) for x in row]) for row in tab]),
                                                     c_list([c_float(b) for b in betas]), c_list(lo[-1]["labels"], c_nat), c_float(lo[-1]["cost"])))
             meta_v.append((case, nopt == 1))
+    # the relabelling phase answering with a scripted sequence of labellings (e2e.traced_run, "relabel_script" - the loop is specified
+    # for arbitrary phase functions): a sequence that settles must stop the loop in the round after it settles, with reason
+    # "converged"; sequences that cycle with period 2 / 3 never reach a fixed point and must use up the iteration limit
+    for j, (sc_, limit_) in enumerate([("settle", 8), ("cycle2", 8), ("cycle3", 9)]):
+        cfg_s = {"N": 2, "W": 1, "K": 2, "beta": 2.0, "lam": 0.11, "limit": limit_, "m": 2, "biased": False, "eps": 0, "joint": False,
+                 "lengths": [64], "data_seed": 1790 + j, "rng_seed": 1790 + j, "regimes": 2, "relabel_script": sc_}
+        rs_ = e2e.traced_run(cfg_s)
+        ctx.count("scripted-relabelling")
+        ctx.mark_nontrivial(("scripted", sc_))
+        if rs_["error"] is not None:
+            ctx.violation("monitor", "run with a scripted relabelling phase (%s) failed: %s" % (sc_, rs_["error"]), {"case": {"cfg": cfg_s}})
+            continue
+        rel_ = [e["state"]["labels"] for e in rs_["events"] if e["event"] == "phase" and e["phase"] == "relabel"]
+        stop_ = [e for e in rs_["events"] if e["event"] == "stop"]
+        if stop_ and (len(rel_) < 2 or rel_[-1] != rel_[-2]):
+            ctx.violation("monitor", "the loop stopped as converged after %d rounds although the last relabelling changed the labels (relabelling sequence: %s): not a fixed point"
+                          % (len(rel_), sc_), {"case": {"cfg": cfg_s, "rounds": len(rel_)}})
+        if sc_ == "settle" and (not stop_ or len(rel_) != 3):
+            ctx.violation("monitor", "a relabelling sequence A, B, B, ... must stop the loop after the third round as converged; it ran %d rounds, stop event: %s"
+                          % (len(rel_), bool(stop_)), {"case": {"cfg": cfg_s, "rounds": len(rel_)}})
+        if sc_ != "settle" and len(rel_) != limit_:
+            ctx.violation("monitor", "a relabelling sequence that never repeats in consecutive rounds (%s) must run for the whole iteration limit %d; it ran %d rounds"
+                          % (sc_, limit_, len(rel_)), {"case": {"cfg": cfg_s, "rounds": len(rel_)}})
+        if rs_["result"]["point_labels"] != rel_[-1]:
+            ctx.violation("monitor", "the labels returned are not the last relabelling's (scripted sequence %s)" % sc_, {"case": {"cfg": cfg_s}})
     ctx.coverage["distribution"] = hist
     core.anchored_check(ctx, ANCHORS, cov, ignore=("LOGGER.", "raise", "return model", "task_pool.terminate()", "task_pool.join()"))
     if runs and runs[0]["result"]:
